@@ -3,41 +3,36 @@
    the Python functions it was generated from return on the same inputs.  Harness side only: no
    theorem depends on this file. *)
 From Coq Require Import QArith List ZArith Bool.
-Require Import Kawin.Common.Ops Kawin.Common.Out Kawin.C06.Model.
+Require Import Kawin.Common.Ops Kawin.Common.Out Kawin.C06.Model Kawin.C06.SpecCorr.
 Require Import KawinRun.Iterators_gen.
 Import ListNotations.
 Open Scope Q_scope.
-
-Definition LQ := list Q.
 
 Definition it_euler (P : list LQ) (h t : Q) (y : LQ) : LQ * Q :=
   ExplicitEulerIterator_gen Qops LQ (lvadd Qops) (lsmul Qops) (poly_rhs Qops P) (fun _ _ => h) (lupdate Qops) t y.
 Definition it_rk4 (P : list LQ) (h t : Q) (y : LQ) : LQ * Q :=
   RK4Iterator_gen Qops LQ (lvadd Qops) (lsmul Qops) (poly_rhs Qops P) (fun _ _ => h) (lupdate Qops) t y.
 
-(* through the solver wrappers: the model proposes dt = h0 + h1 * (dXdt_0)^2 *)
-Definition userdt (h0 h1 : Q) (d : LQ) : Q := Qred (h0 + h1 * (nth 0 d 0 * nth 0 d 0)).
-Definition sv_euler (P : list LQ) (h0 h1 dtmin dtmax t : Q) (y : LQ) : LQ * Q :=
-  solver_Euler_gen Qops LQ (lvadd Qops) (lsmul Qops) (poly_rhs Qops P) (userdt h0 h1) dtmin dtmax t y.
-Definition sv_rk4 (P : list LQ) (h0 h1 dtmin dtmax t : Q) (y : LQ) : LQ * Q :=
-  solver_RK4_gen Qops LQ (lvadd Qops) (lsmul Qops) (poly_rhs Qops P) (userdt h0 h1) dtmin dtmax t y.
+(* through the solver wrappers; fmin / fmax are the attributes dtmin / dtmax (fractions of the span),
+   dtmin / dtmax the absolute bounds _dtmin / _dtmax *)
+Definition sv_euler (P : list LQ) (h0 h1 fmin fmax dtmin dtmax t : Q) (y : LQ) : LQ * Q :=
+  solver_Euler_gen Qops LQ (lvadd Qops) (lsmul Qops) (poly_rhs Qops P) (userdt h0 h1) fmin fmax dtmin dtmax t y.
+Definition sv_rk4 (P : list LQ) (h0 h1 fmin fmax dtmin dtmax t : Q) (y : LQ) : LQ * Q :=
+  solver_RK4_gen Qops LQ (lvadd Qops) (lsmul Qops) (poly_rhs Qops P) (userdt h0 h1) fmin fmax dtmin dtmax t y.
 
-Definition tolscale (m : LQ) : LQ := map (fun v => 1 + qabs v) m.
-
-(* which: 0 Euler iterator, 1 RK4 iterator, 2 Euler through the solver, 3 RK4 through the solver.
-   Result: verdict on the new state (None = agreement within rt * (1 + |model|)), agreement of dt, and
+(* Result: verdict on the new state (None = agreement within rt * (1 + |model|)), agreement of dt, and
    whether the step proposal lies within rt of one of the clamp bounds (comparison indeterminate). *)
-Definition check06 (which : nat) (rt : Q) (P : list LQ) (h0 h1 dtmin dtmax t : Q) (y impl_y : LQ) (impl_dt : Q)
+Definition check06 (which : nat) (rt : Q) (P : list LQ) (h0 h1 fmin fmax dtmin dtmax t : Q) (y impl_y : LQ) (impl_dt : Q)
   : verdict * bool * bool :=
   let r := match which with
            | 0%nat => it_euler P h0 t y
            | 1%nat => it_rk4 P h0 t y
-           | 2%nat => sv_euler P h0 h1 dtmin dtmax t y
-           | _ => sv_rk4 P h0 h1 dtmin dtmax t y
+           | 2%nat => sv_euler P h0 h1 fmin fmax dtmin dtmax t y
+           | _ => sv_rk4 P h0 h1 fmin fmax dtmin dtmax t y
            end in
-  let prop := userdt h0 h1 (poly_rhs Qops P t y) in
-  let tie := match which with
-             | 0%nat | 1%nat => false
-             | _ => near_tie rt prop dtmin || near_tie rt prop dtmax
-             end in
-  (cmpl rt impl_y (fst r) (tolscale (fst r)), closeb rt impl_dt (snd r) (qabs (snd r)), tie).
+  (verdict06 rt r impl_y impl_dt, clamp_tie which rt P h0 h1 dtmin dtmax t y).
+
+(* both opinions at once *)
+Definition check06both (which : nat) (rt : Q) (P : list LQ) (h0 h1 fmin fmax dtmin dtmax t : Q) (y impl_y : LQ) (impl_dt : Q) :=
+  (check06 which rt P h0 h1 fmin fmax dtmin dtmax t y impl_y impl_dt,
+   check06s which rt P h0 h1 dtmin dtmax t y impl_y impl_dt).
